@@ -224,7 +224,8 @@ class Gen:
         r = self.rng
         kind = r.choice(['set', 'set', 'set', 'on', 'off'])
         k = r.random()
-        if k < 0.12:
+        if k < 0.12 and not self.in_matrix:
+            # `all` is not allowed inside a matrix block (nor inside a routine defined there)
             return [('action', kind, 'all')]
         if kind == 'set' and k < 0.17 and self.feature('default'):
             return [('action', 'set', 'default')]
@@ -235,7 +236,9 @@ class Gen:
             b = None if r.random() < 0.4 else a + r.randrange(0, 4)
             return [('action', 'set', [('zone', ('str', name), ('num', a),
                                         None if b is None else ('num', b))])]
-        if kind == 'set' and k < 0.45 and self.feature('matrix'):
+        if kind == 'set' and k < 0.3 + self.features.get('matrix_p', 0.15) and self.feature('matrix') \
+                and not self.in_matrix:
+            # matrix blocks do not nest (and the context flag survives a routine definition)
             return self.matrix_action(depth)
         ops = [self.target()]
         while r.random() < 0.3 and len(ops) < 3:
@@ -268,16 +271,46 @@ class Gen:
                 rows = (('num', 0), None)
             return [('action', 'set', [('matrix', ('str', name), rows, cols,
                                         r.random() < 0.5)])]
+        if self.feature('matrix_rich') and r.random() < 0.6:
+            return [('action', 'set', [('matrix_block', ('str', name),
+                                        self.matrix_body(depth, h, w))])]
         stages = []
         for _ in range(r.randint(1, 3)):
             if r.random() < 0.6:
                 stages.append(('setreg', r.choice(['hue', 'saturation', 'brightness']),
                                ('num', self.number(0, 100))))
-            rows, cols = self.matrix_range(h), self.matrix_range(w)
-            if rows is None and cols is None:
-                cols = (('num', 0), None)
-            stages.append(('stage', rows, cols, r.random() < 0.5))
+            stages.append(self.stage_stmt(h, w))
         return [('action', 'set', [('matrix_block', ('str', name), stages)])]
+
+    def stage_stmt(self, h=None, w=None):
+        if h is None:
+            h, w = getattr(self, 'matrix_dims', None) or (2, 2)
+        r = self.rng
+        rows, cols = self.matrix_range(h), self.matrix_range(w)
+        if rows is None and cols is None:
+            cols = (('num', 0), None)
+        return ('stage', rows, cols, r.random() < 0.5)
+
+    def matrix_body(self, depth, h, w):
+        """the body of a matrix block as the language allows it: besides `stage` and register
+        settings, commands to other lights (which get no WAIT of their own: the block is one
+        command on the time line), `wait`, assignments, prints, `get`, `if`, loops (with
+        `stage` inside; a `break` belongs to a loop of the body), calls — everything
+        `stmt` makes while `in_matrix` is set"""
+        r = self.rng
+        saved_loop, self.loop_depth = self.loop_depth, 0
+        saved_dims = getattr(self, 'matrix_dims', None)
+        self.in_matrix, self.matrix_dims = True, (h, w)
+        saved = self.snapshot_scope()
+        body = []
+        for _ in range(r.randint(1, 4)):
+            body.extend(self.stmt(min(depth - 1, 2)))
+        if not any(st[0] == 'stage' for st in body) and r.random() < 0.8:
+            body.insert(r.randrange(0, len(body) + 1), self.stage_stmt(h, w))
+        self.restore_scope(saved)
+        self.in_matrix, self.matrix_dims = False, saved_dims
+        self.loop_depth = saved_loop
+        return body
 
     def setreg(self):
         r = self.rng
@@ -559,7 +592,15 @@ class Gen:
             kinds += ['call'] * w['call']
         if self.feature('get') and self.light_names('plain'):
             kinds += ['get'] * w['get']
+        if self.in_matrix:
+            kinds += ['stage'] * 6
+        elif self.locals is not None and self.feature('matrix_rich') and self.feature('matrix'):
+            # `stage` is allowed anywhere in a routine body; it acts on the matrix of the
+            # block the routine is called from (on nothing when called from elsewhere)
+            kinds += ['stage']
         k = r.choice(kinds)
+        if k == 'stage':
+            return [self.stage_stmt()]
         if k == 'setreg':
             return self.setreg()
         if k == 'action':
